@@ -230,6 +230,9 @@ def base_cfgs(seed, nrand, eager_limit, **extra):
         cfgs.append(dict(policy=['hold' if i % 2 == 0 else 'random', seed * 100003 + 900 + i, 0.8, 'ev2'], collab=col, faulty=True, **extra))
     # a second manager that raises in on_pipeline_complete: the first, well-behaved one still sees every event once
     cfgs.append(dict(policy=['random', seed * 100003 + 950, 0.8], collab={'ev2': {'raise_on_complete': True}}, faulty=True, **extra))
+    # ... or in a node-level callback (call 3 is the first on_node_complete, call 5 the second one / a later node_start)
+    for k in (3, 5):
+        cfgs.append(dict(policy=['random', seed * 100003 + 960 + k, 0.8], collab={'ev2': {'raise_at': [k]}}, faulty=True, **extra))
     return cfgs
 
 
